@@ -413,9 +413,11 @@ def main(ck):
     specs.append(dict(base, api='run_sdmx', script='DS_r <- DS_1;', df_cols=['Id_1'], perturb='missing-nullable-column'))
     import multiprocessing as mp
     ctx = mp.get_context('spawn')
+    os.environ['VERIF_SHARED_LEAN'] = '1'      # spawned workers re-import this module (and vlib): they must not re-sync the private Lean copy
     with ctx.Pool(8 if not ck.quick() else 6, initializer=_winit, initargs=(vlib.REPO,)) as pool:
         results = pool.map(exec_case, specs, chunksize=4)
         url = pool.apply(url_branch_replay, (None,))
+    os.environ.pop('VERIF_SHARED_LEAN', None)
     lap('dynamic')
     dist = {}
     dyn = {}        # (api, param, kind) -> first (spec, result)
